@@ -28,31 +28,41 @@ def connSids (cs : List Cmd) : List Sid := cs.filterMap connSid
 /-- ids handed out by connect() whose request has not been carried out yet -/
 def pend (g : G) : List Sid := g.cur.toList ++ connSids g.batch ++ connSids g.queue
 
-/-- what must hold of the trace before `o` for `o` to be in order -/
-def okAfter (tr : List Out) : Out → Prop
-  | .data sid => sid ∈ annOf tr ∧ sid ∉ closesOf tr
-  | .announce sid _ => sid ∉ closesOf tr
-  | .close sid _ => sid ∉ closesOf tr
-  | .ret _ _ => True
+/-- the session id an engine callback is about (`connect()` returning is not a callback) -/
+def evSid : Out → Option Sid
+  | .announce sid _ => some sid
+  | .data sid => some sid
+  | .close sid _ => some sid
+  | .ret _ _ => none
 
-def OrderedFrom (pre : List Out) : List Out → Prop
+/-- (a) nothing for an id after its close -/
+def okClosed (pre : List Out) (o : Out) : Prop := ∀ sid, evSid o = some sid → sid ∉ closesOf pre
+/-- (b) an accept callback / a connect callback fires at most once per id -/
+def okOnce (pre : List Out) : Out → Prop
+  | .announce sid k => Out.announce sid k ∉ pre
+  | _ => True
+/-- (c) data only after the accept/connect callback -/
+def okData (pre : List Out) : Out → Prop
+  | .data sid => sid ∈ annOf pre
+  | _ => True
+
+/-- every event of `tr` satisfies `ok` with respect to everything before it (`pre` = what came before `tr`) -/
+def AllFrom (ok : List Out → Out → Prop) (pre : List Out) : List Out → Prop
   | [] => True
-  | o :: rest => okAfter pre o ∧ OrderedFrom (pre ++ [o]) rest
+  | o :: rest => ok pre o ∧ AllFrom ok (pre ++ [o]) rest
 
-/-- per id: nothing after its close, data only after its accept/connect callback -/
-def Ordered (tr : List Out) : Prop := OrderedFrom [] tr
-
-theorem orderedFrom_snoc (pre tr : List Out) (o : Out) :
-    OrderedFrom pre (tr ++ [o]) ↔ OrderedFrom pre tr ∧ okAfter (pre ++ tr) o := by
+theorem allFrom_snoc (ok : List Out → Out → Prop) (pre tr : List Out) (o : Out) :
+    AllFrom ok pre (tr ++ [o]) ↔ AllFrom ok pre tr ∧ ok (pre ++ tr) o := by
   induction tr generalizing pre with
-  | nil => simp [OrderedFrom]
-  | cons x r ih => simp [OrderedFrom, ih, and_assoc]
+  | nil => simp [AllFrom]
+  | cons x r ih => simp [AllFrom, ih, and_assoc]
 
-theorem ordered_snoc (tr : List Out) (o : Out) : Ordered (tr ++ [o]) ↔ Ordered tr ∧ okAfter tr o := by
-  simpa [Ordered] using orderedFrom_snoc [] tr o
+theorem all_snoc (ok : List Out → Out → Prop) (tr : List Out) (o : Out) :
+    AllFrom ok [] (tr ++ [o]) ↔ AllFrom ok [] tr ∧ ok tr o := by
+  simpa using allFrom_snoc ok [] tr o
 
-theorem orderedFrom_split (pre tr : List Out) (h : OrderedFrom pre tr) :
-    ∀ a o b, tr = a ++ o :: b → okAfter (pre ++ a) o := by
+theorem allFrom_split (ok : List Out → Out → Prop) (pre tr : List Out) (h : AllFrom ok pre tr) :
+    ∀ a o b, tr = a ++ o :: b → ok (pre ++ a) o := by
   induction tr generalizing pre with
   | nil => intro a o b e; simp at e
   | cons x r ih =>
@@ -93,6 +103,58 @@ theorem countP_range_flip (p q : Nat → Bool) (n a : Nat) (ha : a < n) (hp : p 
       omega
 
 /-! ## the invariant -/
+/-- the part of the invariant that speaks about the ORDER of events -/
+structure Ord (g : G) : Prop where
+  closed : AllFrom okClosed [] g.tr
+  once : g.dupAnn = false → AllFrom okOnce [] g.tr
+  data : g.envBad = false → AllFrom okData [] g.tr
+  cann : ∀ sid s, g.table sid = some s → (s.connAnnounced = true ↔ Out.announce sid .connect ∈ g.tr)
+
+theorem mem_annOf_of_mem {tr : List Out} {sid : Sid} {k : AnnKind} (h : Out.announce sid k ∈ tr) : sid ∈ annOf tr := by
+  simp only [annOf, List.mem_filterMap]
+  exact ⟨_, h, rfl⟩
+
+/-- the trace grows by at most one event `o` -/
+theorem Ord.ext {g g' : G} (h : Ord g) (o : Option Out) (htr : g'.tr = g.tr ++ o.toList)
+    (hc : ∀ x, o = some x → okClosed g.tr x)
+    (hd : g'.dupAnn = false → g.dupAnn = false ∧ ∀ x, o = some x → okOnce g.tr x)
+    (he : g'.envBad = false → g.envBad = false ∧ ∀ x, o = some x → okData g.tr x)
+    (hcann : ∀ sid s, g'.table sid = some s → (s.connAnnounced = true ↔ Out.announce sid .connect ∈ g'.tr)) : Ord g' := by
+  cases o with
+  | none =>
+    have e : g'.tr = g.tr := by simpa using htr
+    exact ⟨by rw [e]; exact h.closed, fun hx => by rw [e]; exact h.once (hd hx).1, fun hx => by rw [e]; exact h.data (he hx).1, hcann⟩
+  | some x =>
+    have e : g'.tr = g.tr ++ [x] := by simpa using htr
+    refine ⟨?_, ?_, ?_, hcann⟩
+    · rw [e, all_snoc]; exact ⟨h.closed, hc x rfl⟩
+    · intro hx; rw [e, all_snoc]; exact ⟨h.once (hd hx).1, (hd hx).2 x rfl⟩
+    · intro hx; rw [e, all_snoc]; exact ⟨h.data (he hx).1, (he hx).2 x rfl⟩
+
+/-- `cann` carries over when the new event is not a connect callback and every entry of the new table either keeps its flag or
+is a fresh, never-announced session -/
+theorem Ord.cann_keep {g g' : G} (h : Ord g) (o : Option Out) (htr : g'.tr = g.tr ++ o.toList)
+    (hno : ∀ sid, o ≠ some (.announce sid .connect))
+    (ht : ∀ x s', g'.table x = some s' → (∃ s, g.table x = some s ∧ s.connAnnounced = s'.connAnnounced) ∨
+                                          (s'.connAnnounced = false ∧ x ∉ annOf g.tr)) :
+    ∀ sid s, g'.table sid = some s → (s.connAnnounced = true ↔ Out.announce sid .connect ∈ g'.tr) := by
+  intro sid s' hs'
+  have hm : Out.announce sid .connect ∈ g'.tr ↔ Out.announce sid .connect ∈ g.tr := by
+    rw [htr]
+    cases o with
+    | none => simp
+    | some x =>
+      simp only [Option.toList, List.mem_append, List.mem_singleton]
+      constructor
+      · rintro (h1 | h1)
+        · exact h1
+        · exact absurd (h1 ▸ rfl) (hno sid)
+      · exact Or.inl
+  rw [hm]
+  rcases ht sid s' hs' with ⟨s, hs, e⟩ | ⟨e, hn⟩
+  · rw [← e]; exact h.cann sid s hs
+  · rw [e]; simp; exact fun hx => hn (mem_annOf_of_mem hx)
+
 structure Inv (g : G) : Prop where
   tbl_lt : ∀ sid s, g.table sid = some s → sid < g.nextId
   pend_nd : (pend g).Nodup
@@ -109,7 +171,7 @@ structure Inv (g : G) : Prop where
   gauge : g.current = (liveCount g : Int)
   alloc_lt : ∀ sid, sid ∈ allocsOf g.tr → sid < g.nextId
   alloc_sorted : (allocsOf g.tr).Pairwise (· < ·)
-  ordered : g.envBad = false → Ordered g.tr
+  ord : Ord g
   idx_live : ∀ k sid, g.index k = some sid → ∃ s, g.table sid = some s ∧ s.closed = false ∧ s.announced = true ∧ s.pkey = some k
 
 theorem Inv.ann_lt {g : G} (h : Inv g) : ∀ sid, sid ∈ annOf g.tr → sid < g.nextId := by
@@ -127,12 +189,11 @@ theorem Inv.fresh_tbl {g : G} (h : Inv g) : g.table g.nextId = none := by
 class Closed0 (P : G → Prop) : Prop where
   closeNow : ∀ sid site g, P g → P (closeNow sid site g)
   failConnect : ∀ site g, P g → P (failConnect site g)
-  insertCur : ∀ t k o g, P g → P (insertCur t k o g)
+  insertCur : ∀ (t : Bool) k o g, P g → P (insertCur t k o g)
   acceptFresh : ∀ t k o g, P g → P (acceptFresh t k o g).1
   burnId : ∀ g, P g → P (burnId g)
   announceConnect : ∀ sid c g, P g → P (announceConnect sid g c)
   dataCb : ∀ sid g, P g → P (dataCb sid g)
-  setTls : ∀ sid t g, P g → P (setTls sid t g)
   setWq : ∀ sid n g, P g → P (setWq sid n g)
   viaIndex : ∀ sid k g, P g → P (viaIndex sid k g)
   stale : ∀ g, P g → P { g with stale := true }
@@ -143,6 +204,46 @@ class Closed0 (P : G → Prop) : Prop where
 /-- ... and by taking the next command off the batch (when no connect request is in flight) -/
 class Closed (P : G → Prop) : Prop extends Closed0 P where
   pop : ∀ g, P g → g.cur = none → P (popCmd g).2
+
+/-- the primitives the UDP engine is made of: a UDP "connect" creates and announces the session in one go (`connectNow`), there is
+no separate insert / announce.  Every `Closed0` predicate is `ClosedU0`; a predicate like "every session in the table is announced"
+is `ClosedU0` only. -/
+class ClosedU0 (P : G → Prop) : Prop where
+  closeNow : ∀ sid site g, P g → P (closeNow sid site g)
+  failConnect : ∀ site g, P g → P (failConnect site g)
+  connectNow : ∀ k o c g, P g → P (connectNow k o c g)
+  acceptFresh : ∀ t k o g, P g → P (acceptFresh t k o g).1
+  dataCb : ∀ sid g, P g → P (dataCb sid g)
+  setWq : ∀ sid n g, P g → P (setWq sid n g)
+  viaIndex : ∀ sid k g, P g → P (viaIndex sid k g)
+  stale : ∀ g, P g → P { g with stale := true }
+  bp : ∀ n g, P g → P { g with backpressureCloses := n }
+  listeners : ∀ l g, P g → P { g with listeners := l }
+  running : ∀ b g, P g → P { g with running := b }
+
+class ClosedU (P : G → Prop) : Prop extends ClosedU0 P where
+  pop : ∀ g, P g → g.cur = none → P (popCmd g).2
+
+instance (P : G → Prop) [h : Closed0 P] : ClosedU0 P where
+  closeNow := h.closeNow
+  failConnect := h.failConnect
+  connectNow := by
+    intro k o c g hp
+    unfold Iora.Lifecycle.connectNow
+    split
+    · exact h.stale _ hp
+    · exact h.announceConnect _ _ _ (h.insertCur _ _ _ _ hp)
+  acceptFresh := h.acceptFresh
+  dataCb := h.dataCb
+  setWq := h.setWq
+  viaIndex := h.viaIndex
+  stale := h.stale
+  bp := h.bp
+  listeners := h.listeners
+  running := h.running
+
+instance (P : G → Prop) [h : Closed P] : ClosedU P where
+  pop := h.pop
 
 /-! ## small facts about projections -/
 @[simp] theorem closesOf_nil : closesOf [] = [] := rfl
